@@ -253,6 +253,9 @@ def check_enum_keyed_dicts(ctx, rule: str, modules=None) -> None:
             dup = len(labels) != len(set(labels))
             where = _enclosing(ctx, m, node)
             what = f"dict keyed by {ci.name} ({len(labels)} keys)"
+            if missing and len(labels) * 2 > len(all_members) and _table_is_dead(ctx, m, node):
+                ctx.skip(rule, where, node, f"partial table keyed by {ci.name} is only referenced by functions nothing calls (dead code)")
+                continue
             if missing and len(labels) * 2 > len(all_members):
                 # a table covering more than half of the enum is meant to be total
                 ctx.fail(rule, where, node,
@@ -262,6 +265,38 @@ def check_enum_keyed_dicts(ctx, rule: str, modules=None) -> None:
                 ctx.fail(rule, where, node, f"duplicate key in table keyed by {ci.name}", construct=what)
             elif not missing:
                 ctx.ok(rule, where, node, what=what + f" first={short(node.keys[0])}")
+
+
+def _table_is_dead(ctx, module, dict_node) -> bool:
+    """A module-level table is dead if every function that mentions it has no
+    caller other than itself in the call graph."""
+    from ..callgraph import callgraph
+
+    name = None
+    for n, v in module.constants.items():
+        if v is dict_node:
+            name = n
+    if name is None:
+        return False
+    cg = callgraph(ctx)
+    users = []
+    for m2 in ctx.p.modules.values():
+        for f in m2.functions.values():
+            for x in ast.walk(f.node):
+                if isinstance(x, (ast.Name, ast.Attribute)):
+                    d = dotted_of(x)
+                    if d is not None and d.split(".")[-1] == name:
+                        r = ctx.p.resolve_expr(m2, x)
+                        if r is not None and r[0] == "const" and r[1][0] is module and r[1][1] == name:
+                            users.append(f)
+                            break
+    if not users:
+        return True
+    for f in users:
+        callers = {c for c in cg.callers_of(f.key) if c != f.key}
+        if callers:
+            return False
+    return True
 
 
 def _enclosing(ctx, module, node):
